@@ -50,6 +50,9 @@ def run(ctx):
     # an accepted word is never altered on the way into the module (C11's MIR leg)
     import c11
     ctx.extra["typed_requests_decided_from_mir"] = c11.typed_requests_mir(ctx)
+    # lemma 2 says WHERE-ever an instruction is filed it is filed once, unchanged; that an input already in layout order comes back
+    # in the same order needs the container to be the one the layout assigns to the opcode: C05's reference automaton (all opcodes)
+    c05.run(ctx)
     P = tables.parse_operand_arms()
     c02.native_roundtrip(ctx, S, rp, P)
     c06.native_module_roundtrip(ctx, rp, loaded_only=True)
